@@ -849,12 +849,7 @@ func (e *evalCtx) callExpr(x *sx) sval {
 		}
 		v := e.eval(args[0])
 		name := strings.TrimPrefix(args[1].val, "*")
-		var T types.Type
-		if pkg := e.pkg(); pkg != nil {
-			if o := pkg.Scope().Lookup(name); o != nil {
-				T = o.Type()
-			}
-		}
+		T := e.specType(name)
 		if T == nil {
 			e.fail("is_type: no type %s in this package", name)
 		}
@@ -902,6 +897,15 @@ func (e *evalCtx) callExpr(x *sx) sval {
 			now := e.eval(a)
 			was := e.with(base).eval(a)
 			cs = append(cs, eq(now.term, was.term))
+			if now.typ != nil {
+				if mt, ok := now.typ.Underlying().(*types.Map); ok {
+					// a map is unchanged when it is the same map with the same keys and values
+					dom, val, _ := t.mapHVs(mt)
+					ew := e.with(base)
+					cs = append(cs, eq(sel(t.h.get(e.elemState(now), dom), now.term), sel(t.h.get(ew.elemState(was), dom), was.term)))
+					cs = append(cs, eq(sel(t.h.get(e.elemState(now), val), now.term), sel(t.h.get(ew.elemState(was), val), was.term)))
+				}
+			}
 		}
 		return boolv(and(cs...))
 	case "cast":
@@ -911,12 +915,7 @@ func (e *evalCtx) callExpr(x *sx) sval {
 		}
 		v := e.eval(args[1])
 		name := strings.TrimPrefix(args[0].val, "*")
-		var T types.Type
-		if pkg := e.pkg(); pkg != nil {
-			if o := pkg.Scope().Lookup(name); o != nil {
-				T = o.Type()
-			}
-		}
+		T := e.specType(name)
 		if T == nil {
 			e.fail("cast: unknown type %s", name)
 		}
@@ -1062,6 +1061,19 @@ func (e *evalCtx) callExpr(x *sx) sval {
 }
 
 var specFuncs = map[string]func(e *evalCtx, args []*sx) sval{}
+
+// specType: a type named in a contract: `T` of the function's own package, or `import/path.T`.
+func (e *evalCtx) specType(name string) types.Type {
+	if i := strings.LastIndex(name, "."); i > 0 {
+		return e.t.g.namedType(name[:i], name[i+1:])
+	}
+	if pkg := e.pkg(); pkg != nil {
+		if o := pkg.Scope().Lookup(name); o != nil {
+			return o.Type()
+		}
+	}
+	return nil
+}
 
 func (g *Gen) namedType(pkg, name string) types.Type {
 	for _, p := range g.prog.AllPackages() {
